@@ -18,6 +18,31 @@ CHECKS = {
    note=TB + "The overflow defect present at the pinned commit (5124096h -> 25m26s) is repaired by fix commit 929f43e; the model is of the repaired code.",
    technique="Coq proof (induction over component lists with explicit int64 wrap) + boundary/generated correspondence",
    design="5 C08"),
+ "C01": dict(
+   text="Model: all of parser.go and parse_tree.go transliterated function by function into programs over the parser's four instructions (Scan, ScanRegex, Unscan, peekRune), run by an interpreter over the exact lexer (3-slot rings). Theorems (all inputs): any letter-case spelling of a keyword is that keyword and a non-keyword is an identifier; programs compose (run distributes over bind); the AST a program returns depends on the input only through instruction answers (relational theorem, proved once for every parser function at every fuel). PARTIAL at proof level: parse(render spelling ast) = ast is not proved for the whole grammar; it is evaluated directly on the implementation for 32 statement kinds x option subsets x random legal spellings (keyword case, optional quoting, any whitespace, literal forms) against ASTs the generator writes down independently of the parser, and the model parser is compared with the implementation (AST, error kind and position, pushback maxima) on the same texts and on the 502-statement corpus.",
+   note=TB + "A cross-wired, dropped or defaulted clause in the Go parser shows as a direct failure (generator's AST) and as a correspondence mismatch (model). Fix c6f117f (whitespace after a regex GROUP BY dimension) was found by this check.",
+   technique="Coq model of the whole parser + generic theorems; grammar-derived differential testing against independently built ASTs",
+   design="5 C01"),
+ "C02": dict(
+   text="Model: every String() of ast.go (Printer.v, PrinterStmts.v) and the full parser. Theorems: password non-interference of the two password statements' printers (the exception the property grants); three _refuted theorems evaluated by the kernel through the model's own printer and text-level parser (negated right operand, CREATE DATABASE with a bare WITH, call names that need quotes) = the known findings. PARTIAL at proof level: parse(print s) = s is not proved for all statements; it is evaluated structurally (not by string comparison) on the implementation for every statement kind incl. names needing quotes, keywords as names, extreme/fractional numbers and durations, negated operands, regexes with slashes, nested subqueries; String() is compared with the model printer on every case.",
+   note=TB + "Seven printer defects found by this check were repaired (fix commits 2c88f6c 3be6e58 3a7796b 81b60f0 9f484d6 fe228f2 0bd2e68); three narrow classes remain as known findings.",
+   technique="Coq model of printer and parser + kernel-evaluated refutations; structural print/re-parse differential testing",
+   design="5 C02"),
+ "C04": dict(
+   text="Model: every Go panic site is an explicit Crash outcome and fuel exhaustion an explicit OutOfFuel outcome of the interpreter; ring indices are computed as Go computes them (a negative index is a Crash). Theorems: reads and single pushbacks on the exact ring reader never fault and replay the recorded rune; Scan terminates within |text|+1 tokens without ring overrun or fuel exhaustion for every text of length <=3 over a 43-rune alphabet (finite statement). PARTIAL: crash-freedom and fuel adequacy of the whole parser are not theorems yet; they are checked per case: ParseStatement, ParseQuery and ParseExpr under recover and a time budget on mutated corpus/generated statements, random bytes, token soups, unterminated constructs, sign handling with every follower, nesting to 1000 (thorough 30000) and every bindable parameter kind, with outcome class, error position and maximum token/rune pushback depth (build-tag hooks) compared with the model.",
+   note=TB + "Goroutine stack exhaustion at ~10^6 nested parentheses is runtime behaviour no Gallina model exhibits (DESIGN.md section 6 item 15); not exercised because it kills the process.",
+   technique="Coq model with explicit crash/fuel outcomes + lexer theorems; mutation/boundary differential testing under recover with pushback hooks",
+   design="5 C04"),
+ "C07": dict(
+   text="Model: BindValue/bindObjectValue/jsonNumberToValue over a model of the bindable Go/JSON kinds (Params.v) and Parser.scan's substitution inside the interpreter. Theorems (all values, all states): a binding is one typed token of nine kinds; string, identifier and regex values are bound verbatim; a placeholder is answered with exactly the bound (kind, literal) pair; unbound or empty-named placeholders stay BOUNDPARAM; non-placeholder tokens are untouched; the lexer state after any scan, unscan or peek is independent of the bound values (a value never reaches the lexer). PARTIAL: equality with the inlined text and structure-independence from string content are evaluated on the implementation over 46 templates x ~150 values (every kind, hostile strings) and generated statements; BindValue and the parser are compared with the model on the same cases.",
+   note=TB + "Known finding C07-regex-param-after-dot.",
+   technique="Coq proof (case analysis on values; instruction-level non-interference) + template x value differential testing",
+   design="5 C07"),
+ "C16": dict(
+   text="Theorems: ParseQuery's result depends on the input only through instruction answers (relational theorem instantiated at parse_query); two _refuted theorems for the comment rule at raw-rune lookahead sites (known findings), evaluated by the kernel through the model parser. PARTIAL: that whitespace-for-whitespace substitution yields related lexer states is not proved; every whitespace gap of generated statements x 6 whitespace and 6 comment replacements, and joined queries (empty statements, trailing semicolons, comments after separators, missing separators) are evaluated on the implementation and compared with the model. Comment failures are classified by the raw-rune peek positions recorded through a build-tag hook on the comment-free text.",
+   note=TB + "Fix c6f117f also belongs here (a blank before a comma changed the AST).",
+   technique="Coq relational theorem over parser programs + gap-by-gap substitution testing with hook-based classification",
+   design="5 C16"),
  "C03": dict(
    text="Theorems (all chains, all operands, by induction): the tree ParseExpr's right-spine insertion builds from a chain yields the chain in order and is Grouped (left children bind at least as tight, right children strictly tighter); there is exactly one Grouped tree per chain; the function on real BinaryExpr nodes builds that tree for every operand parseUnaryExpr can return; precedence/isOperator tables by computation over the whole enumeration; right spine <= 5. Tie: token table compared exhaustively with the running code; every chain of <=3 (thorough <=4) operators over all 18 spellings plus random chains with parenthesised, negated and literal operands compared (ParseExpr vs model, composed from separately parsed operands) and checked directly against the documented five-level reading and against re-parsing of the printed tree.",
    note=TB + "Re-printing is guarded by the known finding C02-neg-rhs (unary sign desugared without ParenExpr).",
@@ -31,7 +56,7 @@ m = dict(
   setup_cmd="./setup.sh",
   hooks=dict(guard="verif", enable="go build -tags verif (harness module with replace => /repo)",
              baseline_off_cmd="cd /repo && GOFLAGS=-mod=mod go test -vet=off -count=1 -timeout 25m ./...",
-             source_commits=["4c0adac", "11d84c1"], add_only=True),
+             source_commits=["4c0adac", "11d84c1", "1d73255", "f2b6f90"], add_only=True),
   engines=[
     dict(name="coq-model", path="coq/", serves_properties=sorted(CHECKS), kind_free_text="Coq 8.16.1 development: executable Gallina model, proofs, property theorems (Props/)"),
     dict(name="runner", path="runner/", serves_properties=sorted(CHECKS), kind_free_text="model extracted to OCaml (ExtrOcamlBasic only) + line-protocol driver"),
